@@ -585,6 +585,34 @@ fn main() {
         evals.fetch_add(soak_n as u64, Relaxed);
         guard::leave();
     });
+    // time-constant sweep: the gain must be exp(-1/t) for EVERY time, not only the eight above --
+    // every whole number of frames to 4096 (thorough 65537), quarter steps to 1024, audio-typical
+    // times (milliseconds at 44.1/48/96/192 kHz); per time: attack and release steps with the
+    // time given at construction, and the same with the time given by the setters afterwards
+    let mut sweep: Vec<f32> = (1..=ctx.tier.pick(4096u32, 65537)).map(|k| k as f32).collect();
+    sweep.extend((1..4096u32).filter(|k| k % 4 != 0).map(|k| k as f32 / 4.0));
+    for rate in [44100.0f32, 48000.0, 96000.0, 192000.0] {
+        for ms in [0.1f32, 0.5, 1.0, 3.0, 5.0, 10.0, 30.0, 50.0, 100.0, 300.0, 1000.0, 3000.0] {
+            sweep.push(rate * ms / 1000.0);
+        }
+    }
+    ctx.set("time_constant_sweep", json!(sweep.len()));
+    let sweep_fams: Vec<&Family> = fams.iter().filter(|f| ["f32 peak full-wave", "[f64;2] peak full-wave", "[i16;1] peak full-wave", "[f64;2] rms window 2"].contains(&f.name)).collect();
+    sweep.par_iter().for_each(|&t| {
+        for f in &sweep_fams {
+            let direct = [Act::Next(3), Act::Next(3), Act::Next(1), Act::Next(0), Act::Next(4), Act::Next(2)];
+            let by_setter = [Act::Next(3), Act::Attack(t), Act::Release(t), Act::Next(1), Act::Next(3), Act::Next(0), Act::Next(4)];
+            for (atk, rel, h) in [(t, t, &direct[..]), (t, 0.5, &direct[..]), (1.0, t, &direct[..]), (0.5, 1e6, &by_setter[..])] {
+                let case = json!({"sys":"follow","family":f.name,"atk":tj(atk),"rel":tj(rel),"actions":acts_json(h)});
+                let _guard_scope = guard::scoped(&case.to_string());
+                if let Err((k, m)) = (f.run)(atk, rel, h) {
+                    ctx.violation(&k, case, m, Some(&|| (f.run)(atk, rel, h).err().map(|e| e.1)));
+                }
+                evals.fetch_add(h.len() as u64, Relaxed);
+            }
+        }
+        guard::leave();
+    });
     // adaptor
     for &atk in &TIMES {
         for &rel in &TIMES {
@@ -627,7 +655,7 @@ fn main() {
     ctx.add_evals(evals.load(Relaxed));
     ctx.set("exhaustive", json!(false));
     ctx.set("exhaustive_scope", json!("rectifiers: every value of the <=24-bit integer formats (thorough: <=32-bit and every f32), lattice above; follower: every history over the finite action alphabet to the stated depth"));
-    ctx.rule(&format!("rectifiers: full_wave / positive_half_wave / negative_half_wave (functions and Rectifier structs, bare samples and 3-channel frames) over every value of i8 u8 i16 u16 I24 U24 (thorough: i32 u32 too), lattice for wider formats, f32 patterns (thorough: all) and their f64 widening; oracle |signed amplitude| (the value whose negation is unrepresentable excluded) and clamp to the upper / lower side of equilibrium; follower: 20 detector families (peak x 3 rectifiers and RMS windows 1..3 over f32, [f64;2], [i16;1], [u8;2], plus three RMS families over cancellation letters such as 1.0, 1e-5, 1e-9 / 32767, 1) x attack, release in {{0,0.5,1,2.5,100,1e6,1e8,inf}}^2 x every history of length {depth} over {{next(5 letters), set_attack(3), set_release(3)}}; per step from the OBSERVED previous output l and the detected value d (second instance of the real detect component): out == d + g(l-d) with g = exp(-1/t) (attack iff l<d) within 1 LSB / 4 ulp + 4 ulp(f32) of the gain, between l and d, == d when t = 0; constant input: the distance to the detected value never grows; soak probes: one deterministic history of 3000 (thorough 30000) steps per family; detect_envelope adaptor (incl. its setters) == direct detector, one pull per output; Detector::peak / peak_positive_half_wave / peak_negative_half_wave / peak_from_rectifier / rms == Detector::new over the same component for every (attack, release) pair, 3-frame input and setter position"));
+    ctx.rule(&format!("rectifiers: full_wave / positive_half_wave / negative_half_wave (functions and Rectifier structs, bare samples and 3-channel frames) over every value of i8 u8 i16 u16 I24 U24 (thorough: i32 u32 too), lattice for wider formats, f32 patterns (thorough: all) and their f64 widening; oracle |signed amplitude| (the value whose negation is unrepresentable excluded) and clamp to the upper / lower side of equilibrium; follower: 20 detector families (peak x 3 rectifiers and RMS windows 1..3 over f32, [f64;2], [i16;1], [u8;2], plus three RMS families over cancellation letters such as 1.0, 1e-5, 1e-9 / 32767, 1) x attack, release in {{0,0.5,1,2.5,100,1e6,1e8,inf}}^2 x every history of length {depth} over {{next(5 letters), set_attack(3), set_release(3)}}; per step from the OBSERVED previous output l and the detected value d (second instance of the real detect component): out == d + g(l-d) with g = exp(-1/t) (attack iff l<d) within 1 LSB / 4 ulp + 4 ulp(f32) of the gain, between l and d, == d when t = 0; constant input: the distance to the detected value never grows; soak probes: one deterministic history of 3000 (thorough 30000) steps per family; time-constant sweep: every whole number of frames 1..4096 (thorough 65537), quarter steps below 1024 and 48 audio-typical times (0.1 ms .. 3 s at 44.1/48/96/192 kHz) x 4 families x 4 ways of giving the time (constructor attack / release, setters) x a 6-step attack-and-release history, same per-step oracle; detect_envelope adaptor (incl. its setters) == direct detector, one pull per output; Detector::peak / peak_positive_half_wave / peak_negative_half_wave / peak_from_rectifier / rms == Detector::new over the same component for every (attack, release) pair, 3-frame input and setter position"));
     ctx.sample(json!({"sys":"follow","family":"[u8;2] peak negative","atk":2.5,"rel":0.0,"actions":["next:2","attack:0","next:4","next:1"]}));
     ctx.sample(json!({"sys":"rect","fmt":"U24","v":"8388607"}));
     ctx.assume("integer input alphabets of the follower exclude the format's minimum: the follower negates the detected value and forms l - d, which is representable for every other amplitude");
